@@ -125,11 +125,12 @@ type PPA struct {
 	// Probe is called for every instruction about to be executed on a path.
 	Probe func(e *PPA, st *State, fr *Frame, in ssa.Instruction)
 
-	Paths     []Path
-	Truncated int // paths abandoned at the loop bound
-	Overflow  bool
-	nframes   int
-	root      *Frame
+	deepApplied bool
+	Paths       []Path
+	Truncated   int // paths abandoned at the loop bound
+	Overflow    bool
+	nframes     int
+	root        *Frame
 }
 
 // Run enumerates the paths of fn.
@@ -219,9 +220,16 @@ func singleStore(a *ssa.Alloc) ssa.Value {
 	return val
 }
 
+// deepMode (thorough tier) unrolls every loop one more time.
+var deepMode bool
+
 func (e *PPA) defaults() {
 	if e.MaxVisits == 0 {
 		e.MaxVisits = 2
+	}
+	if deepMode && !e.deepApplied {
+		e.MaxVisits++
+		e.deepApplied = true
 	}
 	if e.MaxPaths == 0 {
 		e.MaxPaths = 300000
